@@ -8,7 +8,7 @@ package parser
 
 //@ # the parser's current token is EOS or mirrors the lexer's last token, whose kind the
 //@ # switch in Read has a case for and whose value has the dynamic type Read asserts
-//@ spec tokenOK(p) = p.token == base.EOS || (p.token == p.Lexer.tok && parserKind(p.token) && valueMatches(p.Lexer))
+//@ spec tokenOK(p) = (p.token == base.EOS && atEOF(p.Lexer.reader)) || (p.token == p.Lexer.tok && parserKind(p.token) && valueMatches(p.Lexer))
 //@ spec wfP(p) = p != nil && wfA(p.Lexer) && reservedOK() && lexer.reserved != nil && tblOK() && tokenOK(p)
 //@ # token-level measure: two units per unit of the reader measure, one for a pushed-back token
 //@ spec Mp(p) = 2*M(p.Lexer.reader) + ite(p.ungetFlg, 1, 0)
@@ -20,6 +20,8 @@ package parser
 //@   ensures[C02,C03] old(p.ungetFlg) ==> p.token == old(p.token) && M(p.Lexer.reader) == old(M(p.Lexer.reader))
 //@   ensures[C02,C03] !old(p.ungetFlg) && p.token != base.EOS ==> M(p.Lexer.reader) < old(M(p.Lexer.reader))
 //@   ensures[C02,C03] M(p.Lexer.reader) <= old(M(p.Lexer.reader)) + 1
+//@   # end of stream is stable: once EOS, always EOS, and nothing is consumed any more
+//@   ensures[C02,C03] old(p.token) == base.EOS ==> p.token == base.EOS && M(p.Lexer.reader) <= old(M(p.Lexer.reader))
 //@   ensures[C06] old(p.ungetFlg) ==> p.Row == old(p.Row) && p.ErrorRow == old(p.ErrorRow)
 //@   ensures[C06] !old(p.ungetFlg) && p.token == '\n' ==> p.Row == old(p.Row) + 1 && p.ErrorRow == old(p.ErrorRow)
 //@   ensures[C06] !old(p.ungetFlg) && p.token != '\n' && p.token != base.EOS ==> p.Row == old(p.Row) && p.ErrorRow == p.Row
@@ -33,6 +35,16 @@ package parser
 //@   ensures[C02,C03] result0 == nil ==> p.token == base.EOS
 //@   ensures[C02,C03] result0 != nil ==> p.token != base.EOS && Mp(p) < old(Mp(p))
 //@   ensures[C02,C03] Mp(p) <= old(Mp(p)) + 2
+//@   ensures[C02,C03] old(p.token) == base.EOS ==> result0 == nil && Mp(p) <= old(Mp(p))
+//@   # C06: a string literal advances the row by the newlines it contains, exactly once (when it is
+//@   # lexed); a token that is re-delivered after Unget never moves the row again
+//@   ensures[C06] !old(p.ungetFlg) && p.token == base.STRING ==> p.Row == old(p.Row) + strings.Count(unbox(p.Lexer.val, "string"), "\n")
+//@   ensures[C06] !old(p.ungetFlg) && p.token == base.STRING ==> p.ErrorRow == old(p.Row)
+//@   ensures[C06] old(p.ungetFlg) ==> p.Row == old(p.Row) && p.ErrorRow == old(p.ErrorRow)
+//@   ensures[C06] !old(p.ungetFlg) && p.token == '\n' ==> p.Row == old(p.Row) + 1 && p.ErrorRow == old(p.ErrorRow)
+//@   ensures[C06] !old(p.ungetFlg) && p.token != '\n' && p.token != base.STRING && p.token != base.EOS ==> p.Row == old(p.Row) && p.ErrorRow == p.Row
+//@   ensures[C06] !old(p.ungetFlg) && p.token == base.EOS ==> p.Row == old(p.Row) && p.ErrorRow == old(p.ErrorRow)
+//@   witness post:6.0#2 "a = \"x\ny\"\nb = \"x\ny\"\n1 + \"s\"\n" expect ":::4:::"
 //@   ensures[C09] result0 != nil && p.token == base.INT ==> result0.tType == base.INT
 //@   ensures[C09] result0 != nil && p.token == base.FLOAT ==> result0.tType == base.FLOAT
 //@   ensures[C09] result0 != nil && p.token == base.STRING ==> result0.tType == base.STRING
@@ -76,8 +88,9 @@ package parser
 //@   terminates
 //@   requires wfP(p)
 //@   ensures wfP(p) && sameInput(p.Lexer.reader) && isnil(result)
-//@   loop 0 invariant wfP(p) && sameInput(p.Lexer.reader) && Mp(p) <= old(Mp(p))
+//@   loop 0 invariant wfP(p) && sameInput(p.Lexer.reader) && Mp(p) <= old(Mp(p)) + 2
 //@   loop 0 decreases Mp(p)
+//@   witness dec:loop0#0 "x[1"
 
 //@ func (*ti/parser.Parser).Skip
 //@   safe
